@@ -21,8 +21,32 @@
        request by the client claiming to be cid, asking for scopes, was answered
        with device code dc and user code uc, expiring at exp.
    [approved_ev tr uc sub] / [denied_ev tr uc] - in the past the user approved
-       (as subject sub) / denied the user code uc, and that user code existed. *)
-From OIDC Require Import Lib C16_UserCode C16_UserCode_proofs C16_Device C16_spec C16_proofs.
+       (as subject sub) / denied the user code uc, and that user code existed.
+   Client side (coq/theories/C16_Client.v):
+   [poll_loop g cl p budget st iv t rounds] - rp.DeviceAccessToken /
+       client.PollDeviceAccessTokenEndpoint of the relying party p (client id and
+       secret of its configuration, device code, router, Host / Forwarded host of
+       its token endpoint) started on storage st with interval iv (ms) under a
+       caller deadline of budget ms, t = time of the previous poll (0 at the
+       start); [rounds] says for each poll what the user did since the previous
+       one ([r_before]: approvals / denials), the provider's clock and an injected
+       storage failure. Result: (number of polls made, LTokens t | LErr code |
+       LTimeout | LOther).
+   [answers g cl p st rounds] - the answers those polls get; [interim x] - x is
+       authorization_pending or slow_down; [due_at iv t prior] - when the poll
+       following the interim answers prior falls due: one interval after the
+       previous poll, every slow_down adding 5000 ms to all later intervals;
+       [state_after st rounds] / [users st us] - the storage after the user's doings.
+   [rp_registered c p] - p is configured with the registered id and secret of c.
+   Overlapping requests (coq/theories/C16_Overlap.v):
+   [run_sched g cl st inflight polls evs] - the answers of an execution in which
+       the polls of [polls] overlap with each other and with other operations:
+       SArrive i = poll i enters the provider and is held inside the storage's
+       GetDeviceAuthorizatonState, SServe i = its lookup is served and it is
+       answered, SOp o = operation o runs from start to end at this point;
+       [inflight] = the polls held at the start. [lin polls evs] - the sequential
+       history in which every request stands at the moment of its lookup. *)
+From OIDC Require Import Lib C16_UserCode C16_UserCode_proofs C16_Device C16_Client C16_Overlap C16_spec C16_proofs C16_Client_proofs.
 
 (* Tokens only after the user approved that very device code: a token answer
    implies that this device code was issued (to the polling client, with the
@@ -161,8 +185,115 @@ Theorem C16_histories_are_traces : forall g cl ops,
 Proof. exact histories_reach. Qed.
 Print Assumptions C16_histories_are_traces.
 
+(* An ID token only for the scope openid: whether a token answer carries an ID
+   token is decided by MEMBERSHIP of "openid" in the list the device
+   authorization asked for - a scope that merely contains that text
+   (custom_openid_scope, openid., urn:x:openid:y) does not ask for one. *)
+Theorem C16_id_token_only_for_openid : forall g cl tr st, reach g cl tr st ->
+  forall r cr dc now f host fwd t,
+  poll g cl st r cr dc now f host fwd = RTokens t ->
+  exists uc exp requested,
+    issued_ev tr dc uc (claimed cr) requested exp /\
+    (t_id t <> None <-> In "openid" requested).
+Proof. exact id_token_iff_openid. Qed.
+Print Assumptions C16_id_token_only_for_openid.
+
+(* The relying party's poll loop, for every script of user actions and storage
+   time-outs, every interval and caller deadline: after any sequence of interim
+   answers (authorization_pending, slow_down - in any order and number) the loop
+   returns the first definite answer - tokens, or the error - provided the poll
+   that receives it falls due before the deadline; it has then made exactly one
+   poll per answer. *)
+Theorem C16_loop_returns_first_definite_answer : forall g cl p budget pre st iv t r rest,
+  (0 <= iv)%Z ->
+  forallb interim (answers g cl p st pre) = true ->
+  (due_at iv t (answers g cl p st pre) < budget)%Z ->
+  interim (rp_poll g cl (users (state_after st pre) (r_before r)) p r) = false ->
+  poll_loop g cl p budget st iv t (pre ++ r :: rest) =
+    (S (List.length pre), result_of (rp_poll g cl (users (state_after st pre) (r_before r)) p r)).
+Proof. exact loop_first_final. Qed.
+Print Assumptions C16_loop_returns_first_definite_answer.
+
+(* ... and it gives up (the caller's deadline) only after interim answers and
+   only when the next poll would fall due at or after the deadline (or the script
+   of the provider's answers has ended): never while a poll is still due. *)
+Theorem C16_loop_gives_up_only_at_deadline : forall g cl p budget rounds st iv t n,
+  poll_loop g cl p budget st iv t rounds = (n, LTimeout) ->
+  n <= List.length rounds /\
+  forallb interim (answers g cl p st (firstn n rounds)) = true /\
+  (n = List.length rounds \/ (budget <= due_at iv t (answers g cl p st (firstn n rounds)))%Z).
+Proof. exact loop_timeout_inv. Qed.
+Print Assumptions C16_loop_gives_up_only_at_deadline.
+
+(* Tokens only after approval, for the whole loop: when the loop returns tokens
+   after the history tr, then - with tr' the approvals and denials of the user
+   during the loop up to its last poll - the device code was issued BEFORE the
+   loop to the relying party's client with the scopes now granted, its user code
+   was approved by the tokens' subject and never denied, and the tokens belong to
+   that client. *)
+Theorem C16_loop_tokens_only_after_approval : forall g cl tr st, reach g cl tr st ->
+  forall p budget iv t rounds n tk,
+  poll_loop g cl p budget st iv t rounds = (n, LTokens tk) ->
+  1 <= n <= List.length rounds /\
+  exists tr', Forall user_event tr' /\
+    exists uc exp,
+      issued_ev tr (p_dc p) uc (p_id p) (t_scopes tk) exp /\
+      approved_ev (tr' ++ tr) uc (t_sub tk) /\ ~ denied_ev (tr' ++ tr) uc /\
+      t_client tk = p_id p.
+Proof. exact loop_tokens_only_after_approval. Qed.
+Print Assumptions C16_loop_tokens_only_after_approval.
+
+(* An approved code is redeemed by the client that started the flow: the relying
+   party of a registered device client, configured with its registered
+   credentials, obtains the tokens (approving subject, requested scopes) at the
+   first poll that finds the code approved and not denied, whatever interim
+   answers came before - in particular after a slow_down -, provided that poll
+   falls due before the caller's deadline; on both routers. *)
+Theorem C16_loop_redeems_approved_code : forall g cl p c budget iv pre r rest,
+  find_client cl (p_id p) = Some c -> rp_registered c p = true -> c_dev c = true ->
+  client_ok c = true -> p_dc p <> "" ->
+  (0 <= iv)%Z ->
+  forall st,
+  forallb interim (answers g cl p st pre) = true ->
+  (due_at iv 0 (answers g cl p st pre) < budget)%Z ->
+  forall d, find_dev (users (state_after st pre) (r_before r)) (p_dc p) = Some d ->
+  d_client d = c_id c -> d_done d = true -> d_denied d = false -> r_fault r = FNone ->
+  exists tk, poll_loop g cl p budget st iv 0 (pre ++ r :: rest) = (S (List.length pre), LTokens tk) /\
+             t_sub tk = d_subject d /\ t_client tk = c_id c /\
+             t_scopes tk = d_scopes d /\ t_granted tk = d_scopes d.
+Proof. exact loop_redeems_approved_code. Qed.
+Print Assumptions C16_loop_redeems_approved_code.
+
+(* Overlapping requests, for EVERY schedule: whatever polls are in flight - of the
+   same device code or another one, by the same client or another - an execution
+   answers exactly as the sequential history in which every request stands at its
+   storage lookup; a poll in flight shares nothing with the others. *)
+Theorem C16_overlap_is_sequential : forall g cl polls evs st inflight,
+  run_sched g cl st inflight polls evs = run g cl st (lin polls evs).
+Proof. exact run_sched_lin. Qed.
+Print Assumptions C16_overlap_is_sequential.
+
+(* Tokens only to the initiating client under every overlap: in every schedule, a
+   poll that is answered with tokens - pre = all that took effect before its
+   lookup - comes from the client it claims to be (identity proven), the device
+   code was issued to that client in pre with the scopes granted, its user code
+   was approved in pre by the tokens' subject and not denied. Being in flight
+   together with the owner's poll for the same code earns another client nothing. *)
+Theorem C16_overlap_tokens_only_to_initiator :
+  forall g cl polls evs inflight pre r cr dc now f host fwd post t,
+  lin polls evs = pre ++ OpPoll r cr dc now f host fwd :: post ->
+  nth_error (run_sched g cl [] inflight polls evs) (List.length pre) = Some (RTokens t) ->
+  let tr := rev (combine pre (run g cl [] pre)) in
+  t_client t = claimed cr /\
+  (exists c, find_client cl (claimed cr) = Some c /\ proves_identity c cr = true) /\
+  exists uc exp, issued_ev tr dc uc (claimed cr) (t_scopes t) exp /\
+                 approved_ev tr uc (t_sub t) /\ ~ denied_ev tr uc.
+Proof. exact overlap_tokens. Qed.
+Print Assumptions C16_overlap_tokens_only_to_initiator.
+
 (* the property predicate evaluated by the correspondence run holds of the
-   model on every well-formed input (histories and direct user-code calls) *)
+   model on every well-formed input (histories, direct user-code calls, poll
+   loops of the relying party, histories with overlapping requests) *)
 Theorem C16_spec_holds : forall i, wf i = true -> spec i (model i) = true.
 Proof. exact spec_model. Qed.
 Print Assumptions C16_spec_holds.
